@@ -15,7 +15,7 @@ func init() { register("C06", C06) }
 // C06 — address index returns every indexed transaction of an address, newest first.
 func C06(r *core.Report) {
 	r.Explanation = "Decides structural necessary conditions of C06 in packages gsfa and gsfa/linkedlog: " +
-		"R0 length-prefix agreement - the writer prefixes each record with uvarint(payload length) and reports the whole record size; the reader must take the prefix width from decoding the stored prefix (and check it against the record size), never from a varint-width function applied to the record size; " +
+		"R0 length-prefix agreement - the writer prefixes each record with uvarint(payload length) and reports the whole record size; the reader must take the prefix width from decoding the stored prefix (and check it against the record size), never from a varint-width function applied to the record size; the fixed-size pointer to the previous record is the last segment of the written record; " +
 		"R1 every batch parked by the background writer is flushed before it signals completion (must-pass-through from each park to the done-send), and the parking slice is created empty (a make with non-zero length followed by append/len tests is the pinned-tree defect); " +
 		"R2 Close waits for the background writer before the final synchronous flush of the accumulator, and sets the exit flag before waiting; R3 each batch is reversed (newest first) before it is serialised; R4 the batch handed to the background goroutine is a fresh copy. " +
 		"R5 the synchronous partial flush in Push is taken only under !popRank.has(key) and every hand-off of a full batch to the background writer ranks its address (popRank.Incr) - the two halves of the mechanism that keeps a short newer batch from overtaking a parked older one. " +
@@ -1163,10 +1163,37 @@ func c06AppendLayout(r *core.Report, put *core.Func) bool {
 			return true
 		})
 	}
+	// the record may be assembled by a helper that returns it: s.write(assembleRecord(payload, pointer))
+	lfn := wfn
+	if nWrites == 1 && bufObj == nil && wcall != nil {
+		if hc, ok := core.Unparen(wcall.Args[0]).(*ast.CallExpr); ok {
+			if fo := core.Callee(wfn.Pkg.TypesInfo, hc); fo != nil {
+				if h := p.ByObj[fo.Origin()]; h != nil && h.Body != nil && h.Pkg == wfn.Pkg {
+					var ret types.Object
+					nRet := 0
+					ast.Inspect(h.Body, func(n ast.Node) bool {
+						if _, isLit := n.(*ast.FuncLit); isLit {
+							return false
+						}
+						if rs, ok := n.(*ast.ReturnStmt); ok {
+							nRet++
+							if len(rs.Results) == 1 {
+								ret = core.ObjOf(h.Pkg.TypesInfo, rs.Results[0])
+							}
+						}
+						return true
+					})
+					if nRet == 1 && ret != nil {
+						lfn, bufObj = h, ret
+					}
+				}
+			}
+		}
+	}
 	if nWrites != 1 || bufObj == nil || written == nil {
 		return false
 	}
-	segs, appendBuilt, why := bufferLayout(p, wfn, bufObj)
+	segs, appendBuilt, why := bufferLayout(p, lfn, bufObj)
 	if !appendBuilt {
 		return false
 	}
@@ -1189,6 +1216,19 @@ func c06AppendLayout(r *core.Report, put *core.Func) bool {
 		r.Check(onlyBytes && segs[0].val.equal(rest), rule, put.Key+"#payload-length-excludes-prefix", pos(r, wcall),
 			"uvarint(P) with P = the number of bytes that follow the prefix ("+rest.String()+")",
 			"the length prefix encodes "+segs[0].val.String()+" but "+rest.String()+" bytes follow it ("+segsString(segs)+"): the reader's framing check fails or it mis-frames the record")
+	}
+	// the reader takes the pointer to the previous record from the last bytes of the record: the fixed-size segment comes last
+	if first && len(segs) >= 3 {
+		last := segs[len(segs)-1]
+		isFixed := func(sg recSeg) bool { return !sg.uvar && len(sg.val.terms) == 0 && sg.val.c > 0 }
+		varBefore := false
+		for _, sg := range segs[1 : len(segs)-1] {
+			if !isFixed(sg) {
+				varBefore = true
+			}
+		}
+		r.Check(isFixed(last) && varBefore, rule, put.Key+"#pointer-is-the-last-segment", pos(r, wcall), "the record ends with the fixed-size pointer to the previous record: "+segsString(segs),
+			"the record does not end with the fixed-size pointer to the previous record ("+segsString(segs)+"): the reader takes the last bytes of a record as that pointer and follows payload bytes instead")
 	}
 	// the size handed to the after-callback is the byte count write reported for the whole record
 	afterArgOK, nAfter := false, 0
